@@ -17,6 +17,11 @@ def render(case, c):
         workbody = {0: 'if x > 2 { "a" } else { "b" }',
                     1: 'let v: Vec<u64> = Vec::with_capacity(x as usize + 1); if v.capacity() > x as usize { "w" } else { "z" }',
                     2: BIG + 'if buf[(x as usize) % 4096] > 0 { "w" } else { "z" }'}[work]
+    opaque = p.get("ret") == "opaque"
+    if opaque:
+        RT = "impl Fn() -> u64"
+        workbody = "move || x + 1"
+    mockopt = ", mockall" if p.get("mock") else ""
     items = []
     direct = trait = ""
     gen = p.get("gen", False)
@@ -29,12 +34,15 @@ def render(case, c):
         for k in range(1, depth + 1):
             if k < depth:
                 deps, body = f"deps: &(impl T{k + 1}{extra})", f"deps.f{k + 1}(x + 1{', _s' if p.get('refarg') else ''}){aw}"
+                if opaque:
+                    # (the inner opaque value borrows `deps`: evaluate it and hand out a closure of this function's own)
+                    body = f"let v = ({body})(); move || v"
             else:
                 deps, body = f"deps: &(impl Sync{extra})", workbody
             if kind == "fn":
-                fns.append(f"#[::entrait::entrait(pub T{k})]\n{fnkw} f{k}{G}({deps}, x: u64{garg}) -> {RT} {{ {body} }}\n")
+                fns.append(f"#[::entrait::entrait(pub T{k}{mockopt})]\n{fnkw} f{k}{G}({deps}, x: u64{garg}) -> {RT} {{ {body} }}\n")
             else:
-                fns.append(f"#[::entrait::entrait(pub T{k})]\npub mod m{k} {{\n    use super::*;\n    pub {fnkw} f{k}{G}({deps}, x: u64{garg}) -> {RT} {{ {body} }}\n"
+                fns.append(f"#[::entrait::entrait(pub T{k}{mockopt})]\npub mod m{k} {{\n    use super::*;\n    pub {fnkw} f{k}{G}({deps}, x: u64{garg}) -> {RT} {{ {body} }}\n"
                            f"    pub {fnkw} other{k}(deps: &impl Sync) -> u64 {{ 0 }}\n}}\n")
         items = fns
         path = "m1::f1" if kind == "mod" else "f1"
@@ -79,6 +87,8 @@ def render(case, c):
     descs = {}
     for n, (k, call) in enumerate((("direct", direct), ("trait", trait)), start=1):
         run = f"::vt::block_on({call})" if is_async else call
+        if opaque:
+            run = f"({run})()"
         scs.append(f"""{{ ::vt::emit("scenario", "\\"case\\":\\"{case}\\",\\"sc\\":{n}");
       {mk}
       let _warm = {run};
